@@ -213,8 +213,9 @@ AccOk == LET w == Ev.w
                        /\ Ev.rank_char = RankCharOf(w) /\ Ev.suit_char = SuitCharOf(w) /\ Ev.suit_letter = SuitLetterOf(w)
                        /\ Ev.blank = (w = Blank)
          IN
-         /\ IF IsCardWord(w) \/ w = Blank THEN Own({"C10", "C12", "C20"}, fields, "accessors on a card (C10)")
-            ELSE IF IsCardWord(Strip(w)) THEN Own({"C20"}, fields, "accessors on a marked card (C20)")
+         /\ IF IsCardWord(w) THEN Own({"C10"}, fields, "accessors on a card (C10)")
+            ELSE IF w = Blank THEN Adv(fields, "accessors on the blank card")
+            ELSE IF IsCardWord(Strip(w)) THEN Adv(fields, "accessors on a marked card (C20 relates them to the card's own: flag.same_reads)")
             ELSE Adv(fields, "accessors on a word that is neither a card nor a marked card")
          /\ IsCardWord(w) => Own({"C17"}, Ev.chen2 = ChenHalfPoints(w) /\ Ev.chen_exact = TRUE, "per-card Chen points (C17)")   \* C17
          /\ ~IsCardWord(w) => Adv(Ev.chen2 = ChenHalfPoints(w), "Chen points of a non-card word")
@@ -224,6 +225,7 @@ FlagOk == LET w == Ev.w m == MarkAll(w, Ev.marks) IN
           IF IsCardWord(w)
           THEN /\ Ev.res = m /\ Ev.stripped = Strip(m)                                       \* C20
                /\ Ev.stripped = w /\ (Ev.marks # <<>> => \A c \in CardWords : WGt(m, c))
+               /\ Ev.same_reads = TRUE      \* the accessors read the same on the marked word as on the card
           ELSE Adv(Ev.res = m /\ Ev.stripped = Strip(m), "marking / stripping a word that is not a card")
 ShiftWordOk == LET w == Ev.w
                    ok == /\ Ev.res = ShiftCardSpec(w) /\ Ev.next_suit = SuitName(NextSuit(w)) /\ Ev.res = ShiftWord(w) IN
